@@ -130,7 +130,7 @@ def get (env : Env) (s : AStore) (parts : List String) : SOut :=
       if env.svcMethod d a then .callable
       else match viewOf (d, n) r a with
         | some v => .attr v
-        | Option.none => if STATE_CALLABLE_ATTRS.contains a then .callable else .exc "AttributeError"
+        | Option.none => if methodAttr a then .callable else .exc "AttributeError"
   | _ => .exc "NameError"
 
 /-- reading `d.n` / `d.n.a` from script code: Python variables first, then services, then the state machine -/
@@ -199,7 +199,10 @@ def store (env : Env) (st : AState) (parts : List String) (v : ArgRef) : AStore 
       match v with
       | .none => setattr st.store [d, n, a] Val.none
       | .plain x => setattr st.store [d, n, a] x
-      | .snap _ => (st.store, .unmodelled)
+      | .snap i =>
+        (match st.snaps[i]? with
+         | some sn => setattr st.store [d, n, a] ⟨"\"" ++ sn.value ++ "\"", sn.value⟩
+         | Option.none => (st.store, .unmodelled))
   | _ => (st.store, .unmodelled)
 
 /-- `del d.n` / `del d.n.a` from script code -/
@@ -209,6 +212,20 @@ def delStmt (env : Env) (s : AStore) (parts : List String) : AStore × SOut :=
     match pyVarSrc env d with
     | some _ => (s, .py "delattr")                 -- Python's `del obj.attr`
     | Option.none => delete s parts
+  | _ => (s, .unmodelled)
+
+/-- `d.n += "sfx"`: the value gets the suffix, the attributes are kept (outside the proved fragment: judged by the
+correspondence runs and the oracle) -/
+def aug (env : Env) (s : AStore) (parts : List String) (sfx : String) : AStore × SOut :=
+  match parts with
+  | [d, n] =>
+    match pyVarSrc env d with
+    | some _ => (s, .py "aug")
+    | Option.none =>
+      if callableName env d n then (s, .exc "TypeError")
+      else match s (d, n) with
+        | Option.none => (s, .exc "NameError")
+        | some r => (setRule s (d, n) (some (r.value ++ sfx)) Option.none [], .unit)
   | _ => (s, .unmodelled)
 
 def capture (st : AState) (o : SOut) : AState :=
@@ -222,6 +239,7 @@ def step (env : Env) (st : AState) : Op → AState × SOut
   | .load parts => (capture st (load env st.store parts), load env st.store parts)
   | .store parts v => withStore st (store env st parts v)
   | .delStmt parts => withStore st (delStmt env st.store parts)
+  | .aug parts sfx => withStore st (aug env st.store parts sfx)
   | .get parts => (capture st (get env st.store parts), get env st.store parts)
   | .set parts v na kw =>
     match refValue st.snaps v with
@@ -293,6 +311,7 @@ def Conf (fx : Fixes) (env : Env) : Op → Bool
     match parts with
     | d :: _ :: _ => fx.delPyAttr || (pyVarSrc env d).isNone  -- before the fix `del obj.attr` went to State.delete (F4)
     | _ => false
+  | .aug _ _ => false                                       -- not in the proved fragment (judged by the runs)
   | .set _ v na _ =>
     match v, na with
     | .snap _, Option.none => false                          -- finding F2 through `state.set`
@@ -320,6 +339,7 @@ def ConfNow (env : Env) : Op → Bool
     match parts with
     | _ :: _ :: _ => true
     | _ => false
+  | .aug _ _ => false
   | .set _ v na _ =>
     match v, na with
     | .snap _, Option.none => false
